@@ -43,10 +43,12 @@ def _op_local(op):
 
 
 class Units:
-    def __init__(self, ctx, body, param_items=()):
+    def __init__(self, ctx, body, param_items=(), per_char=False):
         """param_items: parameter indices whose value is an item `(usize, char)` of an
-        `Enumerate<Chars>` (closure handed to a method of such an iterator)."""
+        `Enumerate<Chars>` (closure handed to a method of such an iterator). per_char: the body is a
+        closure that a `Chars` iterator calls once per character (`fold`, `for_each`, `map`, ...)."""
         self.ctx = ctx
+        self.per_char = per_char
         self.b = body
         self.char = {}      # local -> reason (span of the seed)
         self.byte = {}
@@ -100,6 +102,31 @@ class Units:
         for i in list(self.items):
             if isinstance(i, int) and i <= b.argc:
                 self.seeds.append((0, b.span, "closure item"))
+        # a value stepped by a constant once per character - in a closure that a `Chars` iterator calls per item,
+        # or in a loop driven by `Chars::next()` - counts characters (a byte quantity would step by `len_utf8()`)
+        region = None
+        if self.per_char:
+            region = set(range(len(b.blocks)))
+        else:
+            from .cfg import cfg_of
+            cfg = cfg_of(b)
+            region = set()
+            for bi, t in b.calls():
+                a0 = _op_local(t["args"][0]) if t["args"] else None
+                a0ty = self._ty(a0["l"]) if a0 is not None else ""
+                if _m(t, NEXT) and CHARS_TY.search(a0ty) and "CharIndices" not in a0ty and "Enumerate" not in a0ty:
+                    h = cfg.innermost_loop(bi)
+                    if h is not None:
+                        region |= set(cfg.loops()[h])
+        if region:
+            for bi, j, s2 in b.assigns():
+                rv = s2["rv"]
+                if bi in region and not s2["lhs"]["p"] and rv["k"] == "bin" and rv["op"] in ("Add", "AddWithOverflow", "AddUnchecked"):
+                    for x, y in ((rv["a"], rv["b"]), (rv["b"], rv["a"])):
+                        k = y.get("k") if isinstance(y, dict) else None
+                        if isinstance(k, dict) and isinstance(k.get("int"), int) and k["int"] >= 1 and k.get("ty") in ("usize", None) and _op_local(x) is not None and self._usizeish(s2["lhs"]["l"]):
+                            if self._mark(self.char, s2["lhs"]["l"], (bi, s2["span"], "a value stepped by %d once per character of a chars() iteration" % k["int"])):
+                                self.seeds.append((bi, s2["span"], "per-char step"))
         # propagation
         changed = True
         rounds = 0
@@ -210,6 +237,19 @@ class Units:
                 u, w = self.unit_of(t["args"][1])
                 if u == "char":
                     found.append(("str-index", bi, t["span"], w))
+        # a column of a reported position
+        for bi, t in b.calls():
+            if re.search(r"^blockwatch::Position::new$", t.get("res") or t.get("def") or "") and len(t["args"]) == 2:
+                examined += 1
+                u, w = self.unit_of(t["args"][1])
+                if u == "char":
+                    found.append(("position-column", bi, t["span"], w))
+        for bi, j, s in b.assigns():
+            rv = s["rv"]
+            if rv["k"] == "agg" and rv.get("agg") == "adt" and rv.get("path") == "blockwatch::Position" and "character" in (rv.get("fields") or []):
+                u, w = self.unit_of(rv["ops"][(rv.get("fields") or []).index("character")])
+                if u == "char":
+                    found.append(("position-column", bi, s["span"], w))
         for bi, j, s in b.assigns():
             rv = s["rv"]
             if rv["k"] == "bin" and rv["op"] in ("Add", "Sub", "AddWithOverflow", "SubWithOverflow"):
